@@ -41,6 +41,10 @@ CLAIMED = {
    technique="keyword-set extraction of the forced/avoid break predicates and of the sibling-resolution choice table (AST + constants) compared with the CSS Fragmentation sets + producer/consumer vocabulary agreement + division guard on the :nth() page arithmetic",
    text="Thin: decides that the forced and avoid break vocabularies are the CSS Fragmentation sets (column variants only in columns), that every break value the validators emit is classified, that forced beats avoid beats auto between siblings, and that :nth() page matching never divides by zero. Page geometry, actual break positions, orphans/widows and blank-page insertion are not decided.",
    ref="4 C12"),
+ "C14": dict(
+   technique="typestate analysis of the backend's current path over SSA (states Empty/NonEmpty, per-entry-state function summaries to a fixpoint, closures entered at their OnNewStack site, CHA for interface calls, non-empty range loops, case split on enum parameters from call-site constant sets) + loop/dominance rules on the page protocol + path-condition guards on link resolution + provenance of metadata and font values",
+   text="Decides structural necessary conditions of a well-formed drawing: (R1) every Paint/Clip of the drawing code is reached only with a path under construction (24 sites decided, 2 reasoned float-equality sites, 2 reproduced defects recorded as known findings); (R2) one AddPage per page in order and one CreateAnchors after the loop fed by resolveLinks; (R3) anchors are defined once (first id wins) and dangling internal links are dropped; (R4) each metadata field reaches its own backend setter from its own <meta>/<title>; (R5) text is drawn only from CreateFirstLine results whose fonts were registered by AddFont. Finiteness of numbers (NaN from degenerate sizes or zoom 0), the bookmark outline, per-canvas path separation and the order of graphic-state calls are not decided.",
+   ref="4 C14"),
  "C15": dict(
    technique="field-sensitive shared-memory taint over SSA with strong updates and callee mutation/alias summaries to a fixpoint (seeds: declared values of computer functions, style accessor results, package-level variables) + lock-region check for memo caches + AST classifier of every map iteration (order-insensitive patterns, table confirmed by reading) + scan for nondeterminism sources, goroutines, channels and run-time stores to package-level variables",
    text="Decides necessary conditions of determinism and non-interference: no write into memory that outlives one computation (stylesheet values, initial values, globals) except mutex-guarded memo caches; every map iteration is order-insensitive by construction or a named, confirmed site; no clock/random/environment source, goroutine or channel. One reproduced defect (broken out-of-flow boxes re-laid in map order) is a known finding. Races inside dependencies, caller-supplied objects and three named not-decided map iterations (grid track sizing, ResumeStack.Unpack) are outside what is decided.",
